@@ -149,6 +149,44 @@ def _stripped(origin: Any, value: SymStr) -> Optional[Tuple[str, CharSet]]:
     return None
 
 
+def _strpart_atom(info: Any, value: SymStr) -> Rx:
+    """Atoms about a piece of `value.partition(c)`: a conversion succeeding on it, or the piece being non-empty,
+    expressed as a language of the lexeme.  With NS = strings without c:  head = the part before the first c (all of
+    it if there is none), tail = the part after the first c ("" if there is none)."""
+    recv = info["recv"]
+    base, meth, sep, k = recv.args
+    if base is not value:
+        raise AtomError("partition of something else than the lexeme")
+    if meth != "partition" or len(sep) != 1:
+        raise AtomError("only partition() on a one-character separator is modelled")
+    c = Chars(CharSet.of(sep))
+    ns1 = Chars(CharSet.of(sep).negate())
+    NS = star(ns1)
+    if info["kind"] == "nonempty":
+        if k == 0:
+            return Seq(ns1, NS, opt(Seq(c, SIGMA_STAR)))
+        if k == 1:
+            return Seq(NS, c, SIGMA_STAR)
+        return Seq(NS, c, Chars(CharSet([(0, 0x10FFFF)])), SIGMA_STAR)
+    D = dom_int() if info["which"] == "int" else dom_float()
+    # the converter domain must not contain the separator, so that D within NS is D itself
+    if accepts_some_with(D, sep):
+        raise AtomError(f"the domain of {info['which']}() contains the separator {sep!r}")
+    if k == 0:
+        return Seq(D, opt(Seq(c, SIGMA_STAR)))
+    if k == 2:
+        return Seq(NS, c, D)  # "" is in no converter domain, so a lexeme without the separator fails
+    raise AtomError("conversion of the separator piece")
+
+
+def accepts_some_with(rx: Rx, ch: str) -> bool:
+    """Does the language of rx contain a string with the character ch?"""
+    probe = Seq(SIGMA_STAR, Chars(CharSet.of(ch)), SIGMA_STAR)
+    classes = common_partition([rx, probe])
+    both = Lang.from_rx(rx, classes).product(Lang.from_rx(probe, classes), "and").minimize()
+    return both.shortest() is not None
+
+
 def atom_rx(run: Any, key: Any, value: SymStr) -> Rx:
     """Language (over the token's lexeme) of an atom being TRUE."""
     ctx = run.ctx
@@ -194,6 +232,8 @@ def atom_rx(run: Any, key: Any, value: SymStr) -> Rx:
         if not isinstance(item, str) or not item:
             raise AtomError("substring test with a non-constant needle")
         return Seq(SIGMA_STAR, lit(item), SIGMA_STAR)
+    if info is not None and info["kind"] in ("convert", "nonempty") and isinstance(info["recv"], Term) and info["recv"].op == "strpart":
+        return _strpart_atom(info, value)
     if info is not None and info["kind"] == "convert":
         if info["recv"] is not value:
             raise AtomError("conversion of something else than the lexeme")
@@ -383,6 +423,9 @@ def _sig(run: Any, key: Any) -> Any:
         return ("regex", info["mode"], repr(info["pattern"]))
     if info["kind"] == "contains":
         return ("contains", info["item"])
+    if info["kind"] in ("convert", "nonempty") and isinstance(info.get("recv"), Term) and info["recv"].op == "strpart":
+        _b, meth, sep, k = info["recv"].args
+        return (info["kind"], info.get("which"), "strpart", meth, sep, k)
     if info["kind"] == "convert":
         return ("convert", info["which"])
     raise AtomError(f"atom of kind {info['kind']}")
@@ -430,7 +473,7 @@ def blank_recogniser_patterns(model: Model) -> List[str]:
     return found
 
 
-def number_literal_sites(model: Model, extra_rx: List[Rx] = ()) -> Tuple[Any, Any]:
+def number_literal_sites(model: Model, extra_rx: List[Rx] = (), _retry: bool = False) -> Tuple[Any, Any]:
     """Site languages of INT and FLOAT lexemes (token regex, parser predicates, converter domains), on one partition
     that also refines `extra_rx`."""
     pats = lexer_patterns(model)
@@ -440,6 +483,10 @@ def number_literal_sites(model: Model, extra_rx: List[Rx] = ()) -> Tuple[Any, An
         raise AnalysisError("no regex is emitted as INT/FLOAT")
     si = site_language(model, int_names, pats, literal_site(model, "INT"), exclude_prefix_of=float_names, extra_rx=[from_sre(pats[n]) for n in float_names] + list(extra_rx))
     sf = site_language(model, float_names, pats, literal_site(model, "FLOAT"), extra_rx=[from_sre(pats[n]) for n in int_names] + list(extra_rx))
+    if not (si.undecided or sf.undecided) and [c.iv for c in si.classes] != [c.iv for c in sf.classes] and not _retry:
+        # the predicates of one site split characters the other site does not: refine both with each other's classes
+        extra = [Chars(c) for c in si.classes if c.iv] + [Chars(c) for c in sf.classes if c.iv]
+        return number_literal_sites(model, list(extra_rx) + extra, _retry=True)
     return si, sf
 
 
@@ -587,8 +634,7 @@ def lexical_layer(model: Model, report: Report, side: str, rule_prefix: str, onl
         raise AnalysisError("no regex is emitted as INT/FLOAT")
     site = "parse.Parser.parse_integer_literal"
     if want("L4"):
-        si = site_language(model, int_names, pats, literal_site(model, "INT"), exclude_prefix_of=float_names, extra_rx=[from_sre(pats[n]) for n in float_names])
-        sf = site_language(model, float_names, pats, literal_site(model, "FLOAT"), extra_rx=[from_sre(pats[n]) for n in int_names])
+        si, sf = number_literal_sites(model)
     if not want("L4"):
         pass
     elif si.undecided or sf.undecided:
